@@ -162,7 +162,8 @@ Section Main.
     Proof.
       unfold entry_rbas. rewrite Hb. apply forallb_forall. intros x Hx. apply in_map_iff in Hx.
       destruct Hx as (i & <- & Hi). destruct (bp_rba_spec s i HI (bp_binos_placed i Hi)) as (_ & Hds & Hbp & Hsp).
-      rewrite bp_data_start in Hds. pose proof (bp_cat_extent_bounds s HI). unfold u32_ok. lia.
+      rewrite bp_data_start in Hds. pose proof (bp_cat_extent_bounds s HI) as Hce. pose proof HS as HS0.
+      unfold u32_ok. destruct (has_boot s); lia.
     Qed.
 
     Lemma bp_es_fst : map fst es = binos b.
@@ -217,8 +218,12 @@ Section Main.
         with (lvisit l).
       rewrite Hw. cbn [ws_tbl ws_e2i ws_cat ws_last]. rewrite (bp_space_view last' Hl').
       pose proof bp_tree_view as Ht. unfold bp_cat_of in Ht. rewrite bp_hb in Ht. change (lroot (bl s)) with (lroot l). rewrite Ht.
-      rewrite R2, R3. fold (cat_scs (cat_set_rbas (bcat b) (entry_rbas s))).
-      unfold cat_scs at 1. rewrite R4. unfold entry_rbas at 1 2. rewrite Hb, bp_combine3. fold es.
+      assert (Hes : combine (combine (map e_load_rba (cat_entries (cat_set_rbas (bcat b) (entry_rbas s))))
+                                     (map e_sector_count (cat_entries (cat_set_rbas (bcat b) (entry_rbas s)))))
+                            (binos b)
+                    = map (fun p : nat * Z => (rba_of s (fst p), snd p, fst p)) es).
+      { rewrite R3, R4. unfold entry_rbas. rewrite Hb. apply bp_combine3. }
+      rewrite Hes, R2, R3. change (lspace l) with (lspace (bl s)).
       rewrite (bp_link_sim s HI HF es ks (mk_lstate2 (bp_srcform s t1) (bp_e2i s ks) []));
         [|apply Forall_forall; intros p Hp; apply bp_binos_placed; rewrite <- bp_es_fst; apply in_map, Hp
          |apply bp_named_placed|reflexivity].
